@@ -102,7 +102,7 @@ _SYS_TRUSTED = ["Go runtime: sync.Mutex/RWMutex and unbuffered channel semantics
                 "elton middleware chain and context", "the wall clock is monotone (whole seconds)"]
 PROPS["C01"] = {
     "suites": [{"name": "sched", "stateful": True, "quick": 1500, "thorough": 30000, "thorough_seeds": 4}],
-    "trip_re": "overlap|waiter_not_served",
+    "trip_re": "overlap|waiter_not_served|second_entry_for_key",
     "rule": _SCHED_RULE, "assumptions": ["Sys abstracts from int64 wrap-around of createdAt+ttl (covered at entry level, C04.overflow_never_served)"],
     "trusted_base": _SYS_TRUSTED,
 }
@@ -115,8 +115,9 @@ PROPS["C02"] = {
     "trusted_base": _SYS_TRUSTED,
 }
 PROPS["C04"] = {
-    "suites": [{"name": "sched", "stateful": True, "quick": 1500, "thorough": 30000, "thorough_seeds": 4}],
-    "trip_re": "served_stale|age_gt_T.*",
+    "suites": [{"name": "sched", "stateful": True, "quick": 1500, "thorough": 30000, "thorough_seeds": 4},
+               {"name": "fresh", "quick": 8000, "thorough": 100000, "thorough_seeds": 2}],
+    "trip_re": "served_stale|age_gt_T.*|lifetime_gt_declared",
     "rule": _SCHED_RULE, "assumptions": ["'obtained' = the instant the entry became a hit (createdAt)", "the store never returns data that was not written to it (Honest) for the provenance theorem"],
     "trusted_base": _SYS_TRUSTED,
 }
@@ -185,7 +186,7 @@ PROPS["C17"] = {
 
 PROPS["C19"] = {
     "suites": [{"name": "upsel", "quick": 400, "thorough": 6000, "thorough_seeds": 3},
-               {"name": "upsel", "args": ["-opt", "settle"], "quick": 0, "thorough": 6, "thorough_seeds": 1}],
+               {"name": "upsel", "args": ["-opt", "settle"], "quick": 2, "thorough": 8, "thorough_seeds": 1}],
     "trip_re": "sent_to_unhealthy|backup_while_primary|no_server_while_healthy|no_5xx",
     "rule": "upsel: 1-4 real local servers (65% up, 35% backup) behind pike's NewUpstreamServer + target picker + elton proxy, every policy "
             "(first/random/roundRobin/leastconn/unset); three phases of 1-7 sequential requests, between phases one or two servers are "
@@ -201,7 +202,7 @@ PROPS["C08"] = {
     "suites": [{"name": "sched", "stateful": True, "quick": 1000, "thorough": 20000, "thorough_seeds": 3},
                {"name": "crash", "stateful": True, "quick": 25, "thorough": 600, "thorough_seeds": 3}],
     "trip_re": "served_altered.*|served_after_original_expiry|age_reset.*|not_started|client_error|served_stale|wrong_body_for_key",
-    "rule": _SCHED_RULE + " crash: a CHILD PROCESS serves a 60-step history (GETs on 8 keys with an LRU of 4, ticks, purges, bursts of 3 "
+    "rule": _SCHED_RULE + " crash: a CHILD PROCESS serves a 60-step history (GETs on 8 keys with an LRU of 4, ticks, purges, bursts of 8 simultaneous "
             "concurrent writers; lifetimes 2-5 s, every 7th answer uncacheable) through the real request path with a REAL badger "
             "directory; the parent SIGKILLs it at PRNG-chosen output lines plus 0-3 ms jitter (so kills land inside fetches, drains, "
             "saves and purges), restarts it on the same directory, up to 4 kills per trial. Every upstream answer is reported before it "
@@ -215,7 +216,7 @@ PROPS["C08"] = {
 
 PROPS["C16"] = {
     "suites": [{"name": "reconf", "stateful": True, "quick": 400, "thorough": 8000, "thorough_seeds": 3}],
-    "trip_re": "differs_from_fresh.*|surviving_cache_replaced",
+    "trip_re": "differs_from_fresh.*|surviving_cache_replaced|removed_still_listening|not_listening_as_configured",
     "rule": "reconf: sequences of 2-6 valid configurations over 3 compress profiles (incl. one named bestCompression), 3 caches, 3 upstreams, "
             "3 locations, 3 server addresses — each present or absent, options changing (levels, sizes, policy, Accept-Encoding, added "
             "headers, cache/compress binding, min length set or unset, filter set or unset) — applied to the REAL registries in main.update's "
